@@ -328,8 +328,12 @@ impl HitObjectsState {
 
     /// Whether the last object was a spinner.
     fn last_object_was_spinner(&self) -> bool {
-        self.last_object
-            .is_some_and(|kind| kind.has_flag(HitObjectType::SPINNER))
+        // The circle and slider flags take precedence over the spinner flag
+        self.last_object.is_some_and(|kind| {
+            kind.has_flag(HitObjectType::SPINNER)
+                && !kind.has_flag(HitObjectType::CIRCLE)
+                && !kind.has_flag(HitObjectType::SLIDER)
+        })
     }
 
     /// Given a `&str` iterator, this method prepares a slice and provides
